@@ -391,6 +391,7 @@ class ConfigLoader(BaseLoader):
         BaseLoader.__init__(self)
         self.schema = schema
         self._private_schema = False
+        self._including = []   # URLs of the resources being parsed
 
     def loadResource(self, resource):
         sm = self.createSchemaMatcher()
@@ -432,6 +433,9 @@ class ConfigLoader(BaseLoader):
 
     def includeConfiguration(self, section, url, defines):
         url = self.normalizeURL(url)
+        if url in self._including:
+            raise ZConfig.ConfigurationError(
+                "recursive %include of " + url, url)
         with self.openResource(url) as r:
             self._parse_resource(section, r, defines)
 
@@ -439,7 +443,11 @@ class ConfigLoader(BaseLoader):
 
     def _parse_resource(self, matcher, resource, defines=None):
         parser = ZConfig.cfgparser.ZConfigParser(resource, self, defines)
-        parser.parse(matcher)
+        self._including.append(resource.url)
+        try:
+            parser.parse(matcher)
+        finally:
+            self._including.pop()
 
 
 class CompositeHandler:
